@@ -32,8 +32,8 @@ Section CancelRecords.
 
   (* ---- no layer runs out of fuel under a cancelled context ---- *)
 
-  Definition pstop (o : pout value St err) : option cres := match o with POk _ _ _ => None | PStop r => Some r end.
-  Definition mstop (o : mout value St err) : option cres := match o with MOk _ _ _ _ => None | MStop r => Some r end.
+  Definition pstop (o : pout value St err) : option cres := match o with POk _ _ _ | PNext _ _ _ => None | PStop r => Some r end.
+  Definition mstop (o : mout value St err) : option cres := match o with MOk _ _ _ _ | MNext _ _ _ _ => None | MStop r => Some r end.
   Definition lstop (o : lout value St err) : option cres := match o with LStop r => Some r | _ => None end.
 
   Lemma eval_pattern_returns f pat stk m cs t o cs' :
@@ -43,7 +43,7 @@ Section CancelRecords.
     intros HI Hd Hf H. unfold Cancel.eval_pattern in H.
     destruct (run_ctx f pat 0 stk m cs) as [x csb] eqn:E.
     pose proof (rcr _ _ _ _ _ _ _ _ _ HI Hd Hf E) as Hn.
-    destruct x as [r|mb]; [destruct r as [stk' m'|v stk' m'|stk' m'|x0 m'| |]; [destruct stk'|..]|];
+    destruct x as [r|mb]; [destruct r as [stk' m'|v stk' m'|stk' m'|x0 m'| |]; [destruct stk'| | |destruct x0| |]|];
       inversion H; subst; cbn [pstop]; try discriminate; congruence.
   Qed.
 
@@ -56,22 +56,22 @@ Section CancelRecords.
     - inversion H; subst. discriminate.
     - destruct (eval_pattern f p0 stk m cs) as [o0 cs0] eqn:E0.
       pose proof (eval_pattern_returns _ _ _ _ _ _ _ _ HI Hd Hf E0) as Hn.
-      destruct o0; inversion H; subst; cbn [mstop pstop] in *; [discriminate|exact Hn].
+      destruct o0; inversion H; subst; cbn [mstop pstop] in *; [discriminate|discriminate|exact Hn].
     - destruct ir.
       + destruct (eval_pattern f p1 stk m cs) as [o1 cs1] eqn:E1.
         pose proof (eval_pattern_returns _ _ _ _ _ _ _ _ HI Hd Hf E1) as Hn.
-        destruct o1; inversion H; subst; cbn [mstop pstop] in *; [discriminate|exact Hn].
+        destruct o1; inversion H; subst; cbn [mstop pstop] in *; [discriminate|discriminate|exact Hn].
       + destruct (eval_pattern f p0 stk m cs) as [o0 cs0] eqn:E0.
         pose proof (eval_pattern_returns _ _ _ _ _ _ _ _ HI Hd Hf E0) as Hn0.
         destruct (eval_pattern_inv value St err P F cancel_req _ _ _ _ _ _ _ HI E0) as (Hg0 & He0).
-        destruct o0 as [b stk' m'|r]; [|inversion H; subst; exact Hn0].
+        destruct o0 as [b stk' m'|fl stk' m'|r]; [|inversion H; subst; discriminate|inversion H; subst; exact Hn0].
         destruct b; [|inversion H; subst; discriminate].
         cbn [goodp] in Hg0.
         assert (Hd0 : done_at cs0 = Some t) by (apply He0; exact Hd).
         assert (Hf0 : left t cs0 < Z.of_nat f) by (destruct He0 as (Hc & _); unfold left in *; lia).
         destruct (eval_pattern f p1 stk' m' cs0) as [o1 cs1] eqn:E1.
         pose proof (eval_pattern_returns _ _ _ _ _ _ _ _ Hg0 Hd0 Hf0 E1) as Hn.
-        destruct o1; inversion H; subst; cbn [mstop pstop] in *; [discriminate|exact Hn].
+        destruct o1; inversion H; subst; cbn [mstop pstop] in *; [discriminate|discriminate|exact Hn].
     - inversion H; subst. discriminate.
   Qed.
 
@@ -86,7 +86,8 @@ Section CancelRecords.
       destruct (match_pattern f pats ir stk m cs) as [om cs1] eqn:Em.
       pose proof (match_pattern_returns _ _ _ _ _ _ _ _ _ HI Hd Hf Em) as Hnm.
       destruct (match_pattern_inv value St err P F cancel_req _ _ _ _ _ _ _ _ HI Em) as (Hg1 & He1).
-      destruct om as [matched ir' stk1 m1|r]; [|inversion H; subst; exact Hnm].
+      destruct om as [matched ir' stk1 m1|fl ir' stk1 m1|r];
+        [|destruct fl; inversion H; subst; discriminate|inversion H; subst; exact Hnm].
       cbn [goodm] in Hg1.
       assert (Hd1 : done_at cs1 = Some t) by (apply He1; exact Hd).
       assert (Hf1 : left t cs1 < Z.of_nat f) by (destruct He1 as (Hc & _); unfold left in *; lia).
